@@ -270,62 +270,98 @@ class _Blocker(importlib.abc.MetaPathFinder):
 
 
 def table_config(rep):
+    """environment x import availability x flags.  Availability of cspuz_core / enigma_csp / pycsugar is simulated with real
+    module files in a temporary directory: 'ok' (imports fine), 'broken' (present, raises ImportError when imported - a partial
+    install) or absent; z3 (really installed) is hidden by a meta-path finder when it is to be absent."""
+    import itertools
+    import shutil
+    import tempfile
     mods = ["cspuz_core", "enigma_csp", "pycsugar", "z3"]
     names = {"cspuz_core": "cspuz_core", "enigma_csp": "enigma_csp", "pycsugar": "csugar", "z3": "z3"}
     saved_env = dict(os.environ)
     saved_mods = {m: sys.modules.get(m) for m in mods}
+    tmp = tempfile.mkdtemp(prefix="vc20_")
+    sys.path.insert(0, tmp)
     try:
-        for mask in range(16):
-            avail = {m: bool(mask >> i & 1) for i, m in enumerate(mods)}
-            blocker = _Blocker(avail)
+        states = []
+        for combo in itertools.product(("ok", "absent"), repeat=4):
+            states.append(dict(zip(mods, combo)))
+        for k, m in enumerate(mods[:3]):            # present-but-broken variants
+            for z in ("ok", "absent"):
+                st = {x: "absent" for x in mods}
+                st[m] = "broken"
+                st["z3"] = z
+                states.append(st)
+                st2 = dict(st)
+                for lower in mods[k + 1:3]:
+                    st2[lower] = "ok"
+                states.append(st2)
+        for st in states:
+            for m in mods[:3]:
+                f = os.path.join(tmp, m + ".py")
+                if os.path.exists(f):
+                    os.remove(f)
+                if st[m] == "ok":
+                    open(f, "w").write("def solver(text):\n    raise RuntimeError('stub')\n")
+                elif st[m] == "broken":
+                    open(f, "w").write("raise ImportError('native extension missing (simulated partial install)')\n")
+            importlib.invalidate_caches()
+            blocker = _Blocker({"z3": st["z3"] == "ok"})
             sys.meta_path.insert(0, blocker)
             for m in mods:
                 sys.modules.pop(m, None)
-                if avail[m]:
-                    sys.modules[m] = saved_mods[m] if (m == "z3" and saved_mods[m] is not None) else types.ModuleType(m)
+            if st["z3"] == "ok" and saved_mods["z3"] is not None:
+                sys.modules["z3"] = saved_mods["z3"]
             try:
-                want_auto = next((names[m] for m in mods if avail[m]), "sugar")
-                for be in (None, "auto", "sugar", "sugar_extended", "z3", "csugar", "enigma_csp", "cspuz_core", "nonsense"):
-                    for gp in (None, "true", "1", "false", "0", "TRUE", "False", "yes", ""):
-                        for gd in (None, "true", "0", "maybe"):
-                            for infer in (True, False):
-                                rep.finite_tables += 1
-                                for k in ("CSPUZ_DEFAULT_BACKEND", "CSPUZ_USE_GRAPH_PRIMITIVE", "CSPUZ_USE_GRAPH_DIVISION_PRIMITIVE", "CSPUZ_BACKEND_PATH"):
-                                    os.environ.pop(k, None)
-                                if be is not None:
-                                    os.environ["CSPUZ_DEFAULT_BACKEND"] = be
-                                if gp is not None:
-                                    os.environ["CSPUZ_USE_GRAPH_PRIMITIVE"] = gp
-                                if gd is not None:
-                                    os.environ["CSPUZ_USE_GRAPH_DIVISION_PRIMITIVE"] = gd
-                                ebe, egp, egd = (be, gp, gd) if infer else (None, None, None)
-                                w_backend = want_auto if ebe in (None, "auto") else ebe
+                want_auto = next((names[m] for m in mods if st[m] == "ok"), "sugar")
+                envs = [(be, gp, gd, infer) for be in (None, "auto", "sugar", "sugar_extended", "z3", "csugar", "enigma_csp", "cspuz_core", "nonsense")
+                        for gp in (None, "true", "1", "false", "0", "TRUE", "False", "yes", "")
+                        for gd in (None, "true", "0", "maybe") for infer in (True, False)]
+                if "broken" in st.values():
+                    envs = [e for e in envs if e[0] in (None, "auto") and e[1] in (None, "true") and e[2] is None]
+                for (be, gp, gd, infer) in envs:
+                    rep.finite_tables += 1
+                    for k in ("CSPUZ_DEFAULT_BACKEND", "CSPUZ_USE_GRAPH_PRIMITIVE", "CSPUZ_USE_GRAPH_DIVISION_PRIMITIVE", "CSPUZ_BACKEND_PATH"):
+                        os.environ.pop(k, None)
+                    if be is not None:
+                        os.environ["CSPUZ_DEFAULT_BACKEND"] = be
+                    if gp is not None:
+                        os.environ["CSPUZ_USE_GRAPH_PRIMITIVE"] = gp
+                    if gd is not None:
+                        os.environ["CSPUZ_USE_GRAPH_DIVISION_PRIMITIVE"] = gd
+                    ebe, egp, egd = (be, gp, gd) if infer else (None, None, None)
+                    w_backend = want_auto if ebe in (None, "auto") else ebe
 
-                                def tb(v, default):
-                                    if v is None:
-                                        return default
-                                    lv = v.lower()
-                                    if lv in ("true", "1"):
-                                        return True
-                                    if lv in ("false", "0"):
-                                        return False
-                                    return ValueError
-                                w_gp = tb(egp, w_backend in ("csugar", "enigma_csp", "cspuz_core"))
-                                w_gd = tb(egd, w_backend in ("enigma_csp", "cspuz_core"))
-                                try:
-                                    c = CFG.Config(infer_from_env=infer)
-                                    got = (c.default_backend, c.use_graph_primitive, c.use_graph_division_primitive)
-                                except ValueError:
-                                    got = ValueError
-                                want = ValueError if ValueError in (w_gp, w_gd) else (w_backend, w_gp, w_gd)
-                                if got != want:
-                                    rep.counterexample("config-table", "Config(infer_from_env=%s) with available=%r env=(%r,%r,%r): got %r want %r" % (
-                                        infer, [m for m in mods if avail[m]], be, gp, gd, got, want),
-                                        {"engine": "table", "what": "config", "mask": mask, "env": [be, gp, gd], "infer": infer}, True)
-                                    return
+                    def tb(v, default):
+                        if v is None:
+                            return default
+                        lv = v.lower()
+                        if lv in ("true", "1"):
+                            return True
+                        if lv in ("false", "0"):
+                            return False
+                        return ValueError
+                    w_gp = tb(egp, w_backend in ("csugar", "enigma_csp", "cspuz_core"))
+                    w_gd = tb(egd, w_backend in ("enigma_csp", "cspuz_core"))
+                    try:
+                        c = CFG.Config(infer_from_env=infer)
+                        got = (c.default_backend, c.use_graph_primitive, c.use_graph_division_primitive)
+                    except ValueError:
+                        got = ValueError
+                    except Exception as e:
+                        got = "%s: %s" % (type(e).__name__, e)
+                    want = ValueError if ValueError in (w_gp, w_gd) else (w_backend, w_gp, w_gd)
+                    if got != want:
+                        rep.counterexample("config-table", "Config(infer_from_env=%s) with modules %r env=(%r,%r,%r): got %r want %r" % (
+                            infer, st, be, gp, gd, got, want),
+                            {"engine": "table", "what": "config", "state": st, "env": [be, gp, gd], "infer": infer}, True)
+                        return
             finally:
                 sys.meta_path.remove(blocker)
     finally:
+        sys.path.remove(tmp)
+        shutil.rmtree(tmp, ignore_errors=True)
+        importlib.invalidate_caches()
         os.environ.clear()
         os.environ.update(saved_env)
         for m, v in saved_mods.items():
@@ -452,7 +488,7 @@ def run(tier, only=None):
                      "Solver.find_answer / solve backend dispatch (finite table)"]
     rep.bounds = {"_strtobool": "ALL strings of any length (cvc5 strings with str.to_lower; non-ASCII closed by a table over all code points)",
                   "_get_backend_by_name": "every string of length <= 15 (CrossHair)",
-                  "Config": "2^4 import-availability combinations x 9 backend settings x 9 x 4 flag spellings x infer_from_env (finite table)",
+                  "Config": "2^4 import-availability combinations (+ present-but-broken modules) x 9 backend settings x 9 x 4 flag spellings x infer_from_env (finite table, real module files in a temp dir)",
                   "precedence": "6 graph constraints x argument {None,True,False} x both config flags (finite table)",
                   "dispatch": "7 defaults x 9 backend arguments x {find_answer, solve} x {Solver created before / after the default was assigned} (finite table)"}
     rep.outside = ["longer backend names (the dispatch is a chain of == comparisons)", "csugar_binding / backend_path / solver_timeout plumbing"]
